@@ -142,6 +142,10 @@ static void ws_on_alarm(int sig) {
 #if defined(WS_ASAN)
 void __sanitizer_set_death_callback(void (*cb)(void));
 static void ws_on_death(void) { ws_note("WSERVER-DIED cmd_seq=", ws_cmd_seq); }
+// UBSan's runtime keeps its own copy of the common sanitizer state, so the death callback above is not
+// called for a -fno-sanitize-recover UBSan report: this hook (called for every UBSan report) is.
+void __ubsan_on_report(void);
+void __ubsan_on_report(void) { ws_note("WSERVER-DIED cmd_seq=", ws_cmd_seq); }
 #else
 static void ws_on_fatal(int sig) {
   ws_note("WSERVER-SIGNAL sig=", (uint64_t)sig);
